@@ -357,6 +357,7 @@ func (b *GRPCBroker) Accept(id uint32) (net.Listener, error) {
 	if b.addrTranslator != nil {
 		advertiseNet, advertiseAddr, err = b.addrTranslator.HostToPlugin(advertiseNet, advertiseAddr)
 		if err != nil {
+			listener.Close()
 			return nil, err
 		}
 	}
@@ -366,6 +367,9 @@ func (b *GRPCBroker) Accept(id uint32) (net.Listener, error) {
 		Address:   advertiseAddr,
 	})
 	if err != nil {
+		// Nobody will ever dial this listener; don't leave it (and its Unix
+		// socket file) behind.
+		listener.Close()
 		return nil, err
 	}
 
